@@ -315,12 +315,18 @@ class Gen:
     def tree(self, d, want=None):
         r = self.rng
         if d <= 0 or r.random() < 0.2:
-            return self.leaf(want)
+            return self.tree_leaf(want)
         for _ in range(8):
             spec = self.container(d, want)
             if spec is None:
                 continue
             return spec
+        return self.tree_leaf(want)
+
+    def tree_leaf(self, want):
+        """A leaf of the tree, now and then the widget without rows: Pile([]) (box/flow; rows() = 0)."""
+        if want != "fixed" and self.rng.random() < 0.06:
+            return ["pile", [], 0]
         return self.leaf(want)
 
     def relpct(self):
@@ -1192,7 +1198,8 @@ class C01(core.Check):
 
     def systematic_cases(self):
         """Small exhaustive scopes for the arithmetic the random trees hit only now and then: weighted Columns at
-        every narrow width, weighted box Piles at every small height, a Filler scrolling to each cursor row."""
+        every narrow width, weighted box Piles at every small height, a Filler scrolling to each cursor row, widgets
+        without rows inside every container."""
         import itertools
         t = lambda s: ["text", s, "left", "space"]          # noqa: E731
         weights = [1, 2, 5]
@@ -1210,6 +1217,35 @@ class C01(core.Check):
             for valign in ("top", "middle", "bottom"):
                 yield {"tree": ["fill", ["edit", "", "a\nb\nc\nd\ne", "space", "left", pos], valign, "pack", None, 0, 0],
                        "enc": "utf-8", "mode": "corr", "probes": [[2, 4, r, 1] for r in range(1, 7)]}
+        # widgets without rows (Pile([]) and decorations of it) in every place a flow widget can stand; a flow
+        # Columns of them has one row (ba7db6e), everything else passes the 0 rows on
+        e = ["pile", [], 0]
+        zero = [e, ["attr", e], ["pile", [[None, e], [["p"], ["attr", e]]], 1],
+                ["pad", e, "left", ["relative", 100], None, 0, 0], ["fill", e, "top", "pack", None, 0, 0]]
+        flowp = [[1, c, 0, f] for c in (1, 2, 5, 9) for f in (0, 1)]
+        boxp = [[2, c, r, 0] for c, r in ((1, 1), (4, 1), (5, 3), (9, 2))]
+        for z in zero:
+            holders = [
+                ["cols", [[None, z, 0]], 0, 1, 0],
+                ["cols", [[["w", 2], z, 0], [None, ["attr", z], 0]], 1, 1, 1],
+                ["cols", [[["g", 2], ["solid", "#"], 1], [None, z, 0]], 1, 1, 1],
+                ["cols", [[["g", 3], z, 0], [["p"], t("ab"), 0]], 0, 1, 0],
+                ["cols", [[None, ["cols", [[None, z, 0]], 0, 1, 0], 0], [None, z, 0]], 2, 1, 0],
+                ["linebox", z, "t", "left"],
+                ["linebox", z, "", "left"],
+                ["linebox", ["cols", [[None, z, 0]], 0, 1, 0], "title", "center"],
+                ["pile", [[None, z], [None, ["cols", [[None, z, 0]], 0, 1, 0]], [["p"], t("ab cd")]], 1],
+                ["fill", z, "middle", "pack", None, 1, 0],
+                ["pad", z, "center", ["relative", 50], 2, 1, 0],
+            ]
+            for h in holders:
+                yield {"tree": h, "enc": "utf-8", "mode": "corr", "probes": flowp + boxp}
+            yield {"tree": ["frame", ["solid", "."], z, ["cols", [[None, z, 0]], 0, 1, 0], "body"], "enc": "utf-8",
+                   "mode": "corr", "probes": boxp}
+            yield {"tree": ["ov", t("ab"), ["fill", z, "top", "pack", None, 0, 0], "left", 3, "top", "pack", None, None, 0, 0, 0, 0],
+                   "enc": "utf-8", "mode": "corr", "probes": boxp}
+            yield {"tree": ["ov", ["cols", [[None, z, 0]], 0, 1, 0], ["solid", "."], "center", 3, "middle", "pack", None, None, 0, 0, 0, 0],
+                   "enc": "utf-8", "mode": "corr", "probes": boxp}
 
     def cases(self, rng, tier):
         yield from self.systematic_cases()
